@@ -49,13 +49,24 @@ func repoFrames() [][]byte {
 	return realFrames
 }
 
-// stripTimeLines removes the two MSM time lines, which by design follow the
-// handler's time history.
-func stripTimeLines(s string) string {
+// displayOf renders the message and removes the two MSM time lines, which by
+// design follow the handler's time history.  The lines are recognised by their
+// content (the message's own SentAt and StartOfWeek strings), not their wording.
+func displayOf(m *rtcm.Message) string {
+	return stripTimeLines(m.String(), m.SentAt, m.StartOfWeek)
+}
+
+func stripTimeLines(s string, timeLines ...string) string {
 	lines := strings.Split(s, "\n")
 	out := lines[:0]
 	for _, l := range lines {
-		if strings.HasPrefix(l, "Time ") || strings.HasPrefix(l, "Start of ") {
+		skip := false
+		for _, tl := range timeLines {
+			if tl != "" && l == tl {
+				skip = true
+			}
+		}
+		if skip {
 			continue
 		}
 		out = append(out, l)
@@ -82,7 +93,7 @@ func decodeHere(frame []byte, level slog.Level) (b baseline, panicked string) {
 	m, _ := h.GetMessage(append([]byte(nil), frame...))
 	b.frame = frame
 	b.typ = m.MessageType
-	b.text = stripTimeLines(m.String())
+	b.text = displayOf(m)
 	b.fields = fieldsOf(m.Readable)
 	return
 }
@@ -242,7 +253,7 @@ func runC15(c *hx.Ctx) *hx.Outcome {
 			txt := m.String()
 			if r == 0 {
 				first = txt
-				if got := stripTimeLines(txt); got != b.text {
+				if got := stripTimeLines(txt, m.SentAt, m.StartOfWeek); got != b.text {
 					fail("C15/text-differs", "%s: text of frame %d (type %d) differs from its decode alone by a fresh handler:\n--- alone\n%s\n--- here\n%s", who, fi, b.typ, clip(b.text, 600), clip(got, 600))
 				}
 			} else if txt != first {
